@@ -796,10 +796,17 @@ def run_case(case, seg, viol, stats, sample):
             for m in SL.allele_muts(gene, ma, mi):
                 want[m] += 1
         if got != want or s.score > tb0:
+            d_ = dict(detail0, score=s.score, extra=[list(m) for m in (got - want)][:3],
+                      lost=[list(m) for m in (want - got)][:3])
+            # mechanism label of the recorded anchor-substitution finding: a planted sub-allele is defined by an
+            # insertion and a substitution at one database position (the model cannot select it), and what is
+            # reported carries exactly the planted variants (the substitution moved to another allele)
+            anchored = any(any(m.op.startswith("ins") and any(x.pos == m.pos and not x.op.startswith("ins") for x in ms_)
+                               for m in ms_) for ms_ in (SL.allele_muts(gene, ma, mi) for ma, mi in planted))
+            if anchored and got == want:
+                d_["kind"] = "planted-sub-allele-with-substitution-on-insertion-anchor"
             viol.append({"clause": "planted variants are not reproduced (with multiplicity, no additions or losses) "
-                                   "on noise-free evidence",
-                         "detail": dict(detail0, score=s.score, extra=[list(m) for m in (got - want)][:3],
-                                        lost=[list(m) for m in (want - got)][:3])})
+                                   "on noise-free evidence", "detail": d_})
         else:
             stats["planted_ok"] += 1
     # adversarial optimum choice
